@@ -22,6 +22,7 @@ func init() {
 			"R3 (ESP) RetrySubmit returns nil only right after an attempt that returned nil; " +
 			"R4 (ESP) the workspace is obtained inside the attempt, and every failing return after GetChangeOps succeeded has passed ChangeOps.Destroy; " +
 			"R5 (ESP) VersionControl.Result happens at most once per attempt, only after TryCommit:ok (or under dry-run), and the attempt returns nil only after it; " +
+			"R7 endorse.VirtualFirmware returns nil only where no submission to a configured back end failed. " +
 			"R6b the object the manifest is parsed into is allocated during the attempt (not captured from outside the retry closure, not a parameter fed from outside, not a field or global), so no attempt sees an earlier attempt's manifest. " +
 			"R6 (slice) the manifest bytes parsed in the change function come from ReadFile on the ChangeOps parameter of that invocation (no global / context-stored copy). " +
 			"Not covered: the attempt count as a number (≤ retries+1, negative budgets), what a back end does with a fresh workspace.",
@@ -409,6 +410,59 @@ func runC14(c *Ctx) {
 		}
 	}
 	c.S.Floor("R6", "manifest parse sites in package endorse", 1, n6)
+
+	// R7: success means every back end committed. The exported driver (endorse.VirtualFirmware) submits to each
+	// configured version-control back end through the function that runs the retry loop; a nil result of the driver
+	// is reachable only where no such submission failed (a later back end's success never replaces an earlier
+	// failure).
+	if vf := c.P.Func("endorse", "VirtualFirmware"); vf != nil {
+		// the submitting function: the unexported caller(s) of RetrySubmit in package endorse
+		submit := map[*ssa.Function]bool{}
+		for _, g := range c.P.RepoFunctions() {
+			if load.RelPkg(g) != "endorse" || c.isTestFunc(g) || g == retry {
+				continue
+			}
+			if len(callsIn(g, func(call ssa.CallInstruction) bool { return call.Common().StaticCallee() == retry })) > 0 {
+				submit[g] = true
+			}
+		}
+		const bFailed uint = 0
+		nSub := 0
+		r7 := &esp.Rule{Name: "C14.R7"}
+		region := map[*ssa.Function]bool{}
+		for _, g := range unexportedRegion(vf) {
+			if g != vf && !submit[g] {
+				region[g] = true
+			}
+		}
+		r7.Relevant = func(g *ssa.Function) bool { return region[g] }
+		r7.Match = func(in ssa.Instruction) []esp.Ev {
+			if call, ok := in.(ssa.CallInstruction); ok && submit[call.Common().StaticCallee()] {
+				nSub++
+				return []esp.Ev{{ID: 0, Name: "submission to one back end", ErrIdx: errIndex(call.Common().Signature()), BoolIdx: -1}}
+			}
+			return nil
+		}
+		r7.Step = func(x *esp.Ctx, s esp.State, ev esp.Ev, ph esp.Phase) (esp.State, string) {
+			if ph == esp.Fail {
+				return s.Set(bFailed), ""
+			}
+			return s, ""
+		}
+		ei := errIndex(vf.Signature)
+		r7.AtReturn = func(x *esp.Ctx, s esp.State, rets []esp.Abs) string {
+			if ei >= 0 && s.Has(bFailed) && rets[ei] != esp.NonZero {
+				return "R7: VirtualFirmware may report success although the submission to one of the version-control back ends failed (its attempts all failed and nothing was recorded for it)"
+			}
+			return ""
+		}
+		e7 := c.engine(r7)
+		e7.Run(vf, esp.State{})
+		if c.reportEngine(e7, "R7", func(v *esp.Violation) string { return "endorse.VirtualFirmware:every back end committed" }) == 0 {
+			c.S.OK("R7", "endorse.VirtualFirmware:every back end committed", c.pos(vf.Pos()), fmt.Sprintf("success only where no submission failed (%d configurations)", e7.Configs), true)
+		}
+		c.S.Floor("R7", "submission calls reached from VirtualFirmware", 1, nSub)
+	}
 
 	// R6b: the object the manifest is parsed into (and which is then extended and written back) is allocated
 	// during the attempt. An object that outlives the attempt (captured from outside the retry, a parameter fed
